@@ -745,7 +745,7 @@ def run(prop, tier, seed, replay=None):
 
     if prop == "C07":
         from checks import budget
-        pair_cov.update(budget.budget_stage(res, tier))
+        pair_cov.update(budget.budget_stage(res, tier, seed))
 
     res.coverage = {
         "states": fam["states"], "transitions": fam["transitions"],
